@@ -43,7 +43,7 @@ func (c11) Plan(tier string) wk.Plan {
 	}
 	return wk.Plan{
 		Level: "exploration", Cases: n, Chunk: 10, Configs: cfgs, CaseBudget: 120,
-		Rule:          "case = one program (templates around constant lazy lists forced at run time - l[a], l.append(a), l.size()+a, l+l, closures constants, folded createInterpolation; constant maps of 1..45 entries in every representation looked into by key at run time; constant lists/maps used by every argument-dependent operation - mixed with generated programs as in C10, with a medium share of constants) x 6 rounds; every round calls Generate afresh (no sequential warm-up), then 2..16 goroutines are released by a barrier and evaluate the one function with equal or different arguments (own argument objects per call), forcing their results; in half of the rounds the hook points in List.Eval/List.Append sleep 20-200us to widen the window. Refuting events: a race-detector report with a parser2/iterator frame; a goroutine's outcome differs from the reference outcome of its own arguments. Non-trivial = program with a constant that is a lazy list or closure (measured on the optimised AST) and >= 4 goroutines; distinct by program text.",
+		Rule:          "case = one program (templates around constant lazy lists forced at run time - l[a], l.append(a), l.size()+a, l+l, closures constants, folded createInterpolation; constant maps of 1..45 entries in every representation looked into by key at run time; constant lists/maps used by every argument-dependent operation - mixed with generated programs as in C10, with a medium share of constants) x 6 rounds; every round calls Generate afresh (no sequential warm-up), two of the six rounds on a cold generator (nothing was ever evaluated with it; 64 per worker process, created before the first evaluation), then 2..16 goroutines are released by a barrier and evaluate the one function with equal or different arguments (own argument objects per call), forcing their results; in half of the rounds the hook points in List.Eval/List.Append sleep 20-200us to widen the window. Refuting events: a race-detector report with a parser2/iterator frame; a goroutine's outcome differs from the reference outcome of its own arguments. Non-trivial = program with a constant that is a lazy list or closure (measured on the optimised AST) and >= 4 goroutines; distinct by program text.",
 		Floor:         60,
 		FloorCounters: map[string]int64{"concurrent_evaluations": 3000, "hook_delay_points_hit": 50},
 		Assumptions:   []string{"the API-level specification is a pure function of the arguments, so every operation is checked against f(its own input); no linearizability search is needed", "race detection covers executed accesses only"},
@@ -158,7 +158,7 @@ func c11Templates(r interface{ IntN(int) int }) (*ref.Node, []string, []*gen.Ty)
 	case 4:
 		body = ref.Method(ref.Method(ref.Method(L, "append", a), "append", ref.Bin("+", a, ref.Int(1))), "string")
 	case 5:
-		body = ref.Method(ref.Method(L, "top", ref.Int(3)), "sum")
+		body = ref.Method(ref.Method(L, "top", ref.Int(3)), []string{"sum", "mean"}[r.IntN(2)])
 	case 6:
 		body = ref.ListN(ref.Method(L, "first"), ref.Method(L, "last"), ref.Bin("~", a, L), ref.Method(L, "reverse"))
 	case 7:
@@ -177,8 +177,16 @@ func c11Templates(r interface{ IntN(int) int }) (*ref.Node, []string, []*gen.Ty)
 	return ref.Let("l", lazyL(int64(10+r.IntN(8))), body), []string{"a"}, []*gen.Ty{gen.TInt}
 }
 
+var c11cold []*value.FunctionGenerator
+
 func (c11) Run(c *wk.Case) {
 	c11hookOnce.Do(func() {
+		// Cold generators are all created here, before this process evaluates anything: value.New() assigns the
+		// package-level type ids, so creating a generator while goroutines of an earlier evaluation are still
+		// winding down would be a race of the harness's own making (outside what C11 quantifies over).
+		for i := 0; i < 64; i++ {
+			c11cold = append(c11cold, value.New())
+		}
 		value.VerifPoint = func(name string, a, b int) {
 			if d := c11delay.Load(); d > 0 && name != "multiUse.runConsumer" {
 				c11hits.Add(1)
@@ -248,7 +256,14 @@ func (c11) Run(c *wk.Case) {
 	total := 0
 	maxG := 0
 	for round := 0; round < 6; round++ {
-		f, err, pan := generate(g, src, argNames)
+		gr := g
+		if round%3 == 2 && len(c11cold) > 0 {
+			// a generator that has never evaluated anything: whatever the generator itself sets up on first use
+			// at run time (operator or method lookups, type tables) is met by all goroutines at once
+			gr, c11cold = c11cold[len(c11cold)-1], c11cold[:len(c11cold)-1]
+			c.Count("rounds_on_a_cold_generator", 1)
+		}
+		f, err, pan := generate(gr, src, argNames)
 		if pan != nil {
 			c.Violation("generate-panic", fmt.Sprintf("Generate(%q) panics: %v", src, pan), map[string]any{"src": src})
 			return
